@@ -34,3 +34,78 @@ def discarded_generators(run, project, rule, modules=(MARSHAL, CONSTRAINTS, "tpm
                                "stands for - a charge, a close, a skip of padding, a nested decode - never happens", module=m, node=st,
                                func=q, construct=f"discarded generator {nm}()")
     run.ob(rule, True, f"no generator of the decode core is created and discarded ({len(names)} generator names, {n} discarded)")
+
+
+def call_signatures(run, project, rule, modules=(MARSHAL, CONSTRAINTS, "tpmstream.common.error", "tpmstream.common.event")):
+    """A call that leaves out a required parameter, names a parameter that does not exist or passes too many positional
+    arguments fails with TypeError - an internal error, not a documented outcome.  Checked for the calls in the decode core whose
+    callee is a function or a class (its __init__) of the project with a name that is unique in the project; calls with
+    * / ** arguments are skipped (their arity is not visible)."""
+    funcs, classes = {}, {}
+    for mname, m in project.modules.items():
+        for st in m.tree.body:
+            if isinstance(st, ast.FunctionDef):
+                funcs.setdefault(st.name, []).append((m, st))
+            elif isinstance(st, ast.ClassDef):
+                classes.setdefault(st.name, []).append((m, st))
+
+    def init_of(cdef, m, depth=0):
+        for x in cdef.body:
+            if isinstance(x, ast.FunctionDef) and x.name == "__init__":
+                return x
+        if depth < 4:
+            for b in cdef.bases:
+                bn = norm(b).split(".")[-1]
+                if len(classes.get(bn, ())) == 1:
+                    r = init_of(classes[bn][0][1], classes[bn][0][0], depth + 1)
+                    if r is not None:
+                        return r
+                elif bn not in classes:
+                    return "external"
+        return None
+    n = 0
+    for mname in modules:
+        m = project.modules.get(mname)
+        if m is None:
+            continue
+        for q, fn in m.functions().items():
+            for c in walk_no_nested(fn):
+                if not (isinstance(c, ast.Call) and isinstance(c.func, ast.Name)):
+                    continue
+                if any(isinstance(a, ast.Starred) for a in c.args) or any(k.arg is None for k in c.keywords):
+                    continue
+                name = c.func.id
+                target, skip_self = None, 0
+                if len(funcs.get(name, ())) == 1 and name not in classes:
+                    target = funcs[name][0][1]
+                elif len(classes.get(name, ())) == 1 and name not in funcs:
+                    cdef = classes[name][0][1]
+                    if any(norm(d).split(".")[-1].startswith(("dataclass", "tpm_")) for d in cdef.decorator_list):
+                        continue  # generated constructors
+                    target = init_of(cdef, classes[name][0][0])
+                    skip_self = 1
+                    if target == "external" or target is None:
+                        continue
+                if target is None or target.decorator_list:
+                    continue
+                a = target.args
+                pos = [x.arg for x in a.posonlyargs + a.args][skip_self:]
+                n_def = len(a.defaults)
+                required = set(pos[:len(pos) - n_def] if n_def else pos)
+                required |= {x.arg for x, d in zip(a.kwonlyargs, a.kw_defaults) if d is None}
+                allnames = set(pos) | {x.arg for x in a.kwonlyargs}
+                given = set(pos[:len(c.args)]) | {k.arg for k in c.keywords}
+                problems = []
+                if len(c.args) > len(pos) and a.vararg is None:
+                    problems.append(f"{len(c.args)} positional arguments for {len(pos)} parameters")
+                unknown = {k.arg for k in c.keywords} - allnames
+                if unknown and a.kwarg is None:
+                    problems.append(f"unknown keyword(s) {sorted(unknown)}")
+                missing = required - given
+                if missing:
+                    problems.append(f"required parameter(s) {sorted(missing)} not supplied")
+                n += 1
+                run.ob(rule, not problems, f"{q}: {name}(...) matches its signature",
+                       f"`{norm(c)[:90]}`: {'; '.join(problems)} - the call raises TypeError, which is not a documented outcome of decoding",
+                       module=m, node=c, func=q, construct=f"call of {name}")
+    return n
